@@ -507,7 +507,7 @@ package tls
 
 // Write(b): decoder of a captured GREASE ECH extension body (type, kdf, aead, config id, key<2>, payload<2>).
 //@ func (*GREASEEncryptedClientHelloExtension).Write
-//@   property C16
+//@   property C16 C08 C06 C07
 //@   let kdf = b[1]*256 + b[2]
 //@   let aead = b[3]*256 + b[4]
 //@   let kl = b[6]*256 + b[7]
